@@ -455,6 +455,12 @@ pub fn exhaustive_cases(max_k: u8) -> Vec<Case> {
     v
 }
 
+/// Largest batch the blocking client sends without queueing behind its own worker pool.
+fn blocking_batch_limit() -> usize {
+    let cores = std::thread::available_parallelism().map(|n| n.get()).unwrap_or(1);
+    (4 * cores).min(32)
+}
+
 pub fn case() -> BoxedStrategy<Case> {
     (
         prop::sample::select(vec![ClientKind::Blocking, ClientKind::Async, ClientKind::Ws]),
@@ -479,7 +485,9 @@ pub fn case() -> BoxedStrategy<Case> {
                 script,
                 // (the blocking client runs a batch on a bounded worker pool; the scripted peer
                 // holds replies back, so large batches are generated for the async clients only)
-                batch: batch && (k <= 32 || client != ClientKind::Blocking),
+                // For Client that pool is min(K, 4 x cores, 64) threads: a script may hold back all K
+                // replies, so K must not exceed the pool of the machine the check runs on.
+                batch: batch && (client != ClientKind::Blocking || (k as usize) <= blocking_batch_limit()),
                 no_subscriber: client == ClientKind::Ws && order.first().is_some_and(|o| o % 3 == 0),
             }
         })
